@@ -81,7 +81,7 @@ def cvc5_check(assumptions, formula, timeout_s, intblast=True):
         if intblast:
             return 'unknown', None, 0.0
     txt = txt.replace('(check-sat)', '(check-sat)\n(get-model)')
-    txt = '(set-option :produce-models true)\n' + txt
+    txt = '(set-option :produce-models true)\n(set-logic ALL)\n' + txt
     with tempfile.NamedTemporaryFile('w', suffix='.smt2', delete=False, dir=os.environ.get('AVEL_VERIF_TMP', None)) as f:
         f.write(txt)
         path = f.name
@@ -98,9 +98,13 @@ def cvc5_check(assumptions, formula, timeout_s, intblast=True):
     finally:
         os.unlink(path)
     dt = time.time() - t
-    if '(error' in out or 'rror' in out.split('\n')[0]:
-        return 'unknown', None, dt
-    first = out.strip().split('\n')[0].strip() if out.strip() else ''
+    first = ''
+    for line in out.split('\n'):
+        if line.strip().startswith('(error'):
+            break          # an error before the verdict makes the answer inconclusive
+        if line.strip() in ('sat', 'unsat', 'unknown'):
+            first = line.strip()
+            break
     if first == 'unsat':
         return 'unsat', None, dt
     if first == 'sat':
@@ -124,19 +128,23 @@ def kissat_check(assumptions, formula, timeout_s):
     try:
         tac = z3.Then(z3.Tactic('simplify'), z3.Tactic('fpa2bv'), z3.Tactic('simplify'), z3.Tactic('bit-blast'), z3.Tactic('tseitin-cnf'))
         res = z3.TryFor(tac, int(timeout_s * 1000))(g)
-    except z3.Z3Exception:
+    except z3.Z3Exception as e:
+        if os.environ.get('AVEL_VERIF_DEBUG'):
+            print('kissat_check: tactic failed:', e)
         return 'unknown', None, time.time() - t0
     if len(res) != 1:
         return 'unknown', None, time.time() - t0
     sub = res[0]
     if sub.inconsistent():
         return 'unsat', None, time.time() - t0
+    if len(sub) == 0:
+        return 'sat-nomodel', None, time.time() - t0
     dimacs = sub.dimacs()
     with tempfile.NamedTemporaryFile('w', suffix='.cnf', delete=False, dir=os.environ.get('AVEL_VERIF_TMP', None)) as f:
         f.write(dimacs)
         path = f.name
     try:
-        r = subprocess.run(['kissat', '-q', '--time=%d' % int(timeout_s), path], stdout=subprocess.PIPE, stderr=subprocess.PIPE,
+        r = subprocess.run(['kissat', '-q', '--relaxed', '--time=%d' % int(timeout_s), path], stdout=subprocess.PIPE, stderr=subprocess.PIPE,
                            universal_newlines=True, timeout=timeout_s + 20)
         code = r.returncode
     except subprocess.TimeoutExpired:
@@ -152,7 +160,8 @@ def kissat_check(assumptions, formula, timeout_s):
 
 
 class Portfolio:
-    def __init__(self, z3_ms=10000, fallback_s=20, use_cvc5=True, use_kissat=True):
+    def __init__(self, z3_ms=10000, fallback_s=20, use_cvc5=True, use_kissat=True, plain_cvc5=False):
+        self.plain_cvc5 = plain_cvc5
         self.z3_ms = z3_ms
         self.fallback_s = fallback_s
         self.use_cvc5 = use_cvc5
@@ -171,9 +180,40 @@ class Portfolio:
         if r != 'unknown':
             st.decided_by['z3'] += 1
             return r, m, 'z3'
+        txt = None
         if self.use_cvc5:
             try:
-                r, m, dt = cvc5_check(assumptions, formula, self.fallback_s, True)
+                txt = to_smt2(assumptions, formula)
+            except Exception:
+                txt = None
+            if txt is not None and BVHARD.search(txt):
+                try:
+                    r, m, dt = cvc5_check(assumptions, formula, self.fallback_s, True)
+                except Exception:
+                    r, m, dt = 'unknown', None, 0.0
+                st.calls['cvc5'] += 1
+                st.time['cvc5'] += dt
+                if r != 'unknown':
+                    st.decided_by['cvc5'] += 1
+                    return r, m, 'cvc5'
+        if self.use_kissat and (txt is None or 'Array' not in txt):
+            r, m, dt = kissat_check(assumptions, formula, self.fallback_s)
+            st.calls['kissat'] += 1
+            st.time['kissat'] += dt
+            if r == 'unsat':
+                st.decided_by['kissat'] += 1
+                return r, m, 'kissat'
+            if r == 'sat-nomodel':
+                # a model exists: give z3 a longer try to produce it
+                r2, m2, dt2 = z3_check(assumptions, formula, 4 * (z3_ms or self.z3_ms))
+                st.calls['z3'] += 1
+                st.time['z3'] += dt2
+                if r2 != 'unknown':
+                    st.decided_by['z3'] += 1
+                    return r2, m2, 'z3'
+        if self.use_cvc5 and self.plain_cvc5 and txt is not None and 'FloatingPoint' not in txt:
+            try:
+                r, m, dt = cvc5_check(assumptions, formula, self.fallback_s, False)
             except Exception:
                 r, m, dt = 'unknown', None, 0.0
             st.calls['cvc5'] += 1
@@ -181,11 +221,4 @@ class Portfolio:
             if r != 'unknown':
                 st.decided_by['cvc5'] += 1
                 return r, m, 'cvc5'
-        if self.use_kissat:
-            r, m, dt = kissat_check(assumptions, formula, self.fallback_s)
-            st.calls['kissat'] += 1
-            st.time['kissat'] += dt
-            if r == 'unsat':
-                st.decided_by['kissat'] += 1
-                return r, m, 'kissat'
         return 'unknown', None, 'none'
